@@ -1338,7 +1338,14 @@ func EnumerateFieldCases(scName string, deviator int, classes []string, allIdx b
 			}
 		}
 		// whole-message operations
-		for _, op := range []string{"truncate-half", "empty-wire", "garbage", "flip-flag", "duplicate", "from-index:-1", "from-index:" + fmt.Sprint(len(nw.Nodes)), "from-index:2147483647"} {
+		wops := []string{"truncate-half", "empty-wire", "garbage", "flip-flag", "duplicate", "from-index:2147483647"}
+		// every forged sender index from -1 to a little beyond the number of parties (the true one excepted)
+		for k := -1; k <= len(nw.Nodes)+2; k++ {
+			if k != nw.Nodes[deviator].ID.Index {
+				wops = append(wops, fmt.Sprintf("from-index:%d", k))
+			}
+		}
+		for _, op := range wops {
 			cases = append(cases, Case{Scenario: scName, Deviator: deviator, Dev: Dev{MsgType: m.Type, Occ: occ, Index: -1, Op: op}})
 		}
 		for _, other := range nw.Nodes {
